@@ -13,7 +13,7 @@ type DataSpec struct {
 	Period int    `json:"period"`
 }
 
-var dataClasses = []string{"text", "uniform", "nearuniform", "fib", "alpha3", "runs", "period", "tokendense", "mixed", "zeros", "sparse", "dom50", "alpha4"}
+var dataClasses = []string{"text", "uniform", "nearuniform", "fib", "alpha3", "runs", "period", "tokendense", "mixed", "zeros", "sparse", "dom50", "alpha4", "pruns"}
 
 var words = []string{"the", "of", "and", "compression", "deflate", "window", "huffman", "stream", "a", "to", "in", "is", "that", "for", "block", "literal", "distance", "length", "code", "bits", "byte", "0123456789", "\n", ", ", ". ", "Intel", "fastgo", "golang"}
 
@@ -118,6 +118,32 @@ func (d DataSpec) Bytes() []byte {
 		k := n/share + 50
 		for _, i := range r.Perm(n)[:minInt(k, n)] {
 			b[i] = 0
+		}
+	case "pruns":
+		// many periodic stretches (period 1..40, length 4..3000) separated by a fresh byte:
+		// hundreds of long matches of every length modulo 258 per input
+		for i := 0; i < n; {
+			p := 1 + r.Intn(40)
+			if r.Intn(3) == 0 {
+				p = 4 + r.Intn(8)
+			}
+			l := 4 + r.Intn(3000)
+			if r.Intn(2) == 0 {
+				l = 258*(1+r.Intn(6)) + r.Intn(8) + p
+			}
+			start := i
+			for j := 0; j < l && i < n; j++ {
+				if j < p {
+					b[i] = byte(r.Intn(256))
+				} else {
+					b[i] = b[start+j%p]
+				}
+				i++
+			}
+			if i < n {
+				b[i] = byte(r.Intn(256))
+				i++
+			}
 		}
 	case "alpha4":
 		// four letters with very short codes: several symbols per decoding-table entry
